@@ -258,6 +258,10 @@ Proof.
   2:{ intros p _. rewrite Hpm. now destruct (oblob_eqb _ _). }
   rewrite existsb_false.
   2:{ intros p _. rewrite Hpm. now destruct (oblob_eqb _ _). }
+  rewrite existsb_false.
+  2:{ intros p _. rewrite Hpm, Hip. destruct (oblob_eqb (tget (s_base e) p) (tget (s_index e) p)); [|reflexivity].
+      cbn [get_or]. now rewrite oblob_eqb_refl. }
+  cbn [andb].
   assert (Hout : forall p, mem p ks = false -> oblob_eqb (tget (s_base e) p) (tget (s_index e) p) = true).
   { intros p Hm. apply mem_false in Hm. unfold ks in Hm. rewrite !in_app_iff in Hm.
     rewrite !tget_notin by tauto. reflexivity. }
@@ -1045,6 +1049,7 @@ Proof.
   - destruct (negb (forallb _ ks)); [discriminate|].
     destruct (negb (tree_eqb (g_index g) (head_tree g))); [discriminate|].
     destruct (existsb _ ks); [discriminate|]. destruct (existsb _ ks); [discriminate|].
+    destruct (existsb _ ks); [discriminate|].
     intros [= <-]. split; [repeat split|]. split; [reflexivity|]. split.
     + intros p. cbn [g_wt set_stash set_index set_wt]. rewrite tget_upd.
       destruct (mem p ks) eqn:Em; [reflexivity|]. destruct (Hout p Em) as (-> & _ & -> & ->). reflexivity.
